@@ -550,3 +550,9 @@ package server
 //@   at-return requires ret0 != nil && s.Actions.BgpActions.SetLargeCommunity.Options == oc.BGP_SET_COMMUNITY_OPTION_TYPE_ADD ==> ret0.Type == api.CommunityAction_TYPE_ADD
 //@   at-return requires ret0 != nil && s.Actions.BgpActions.SetLargeCommunity.Options == oc.BGP_SET_COMMUNITY_OPTION_TYPE_REMOVE ==> ret0.Type == api.CommunityAction_TYPE_REMOVE
 //@   at-return requires ret0 != nil && s.Actions.BgpActions.SetLargeCommunity.Options == oc.BGP_SET_COMMUNITY_OPTION_TYPE_REPLACE ==> ret0.Type == api.CommunityAction_TYPE_REPLACE
+
+// from C10 "what is read back equals what was configured": ListStatement reports the origin condition of a statement
+//@ props C10
+//@ func toStatementApi
+//@   claims at-return
+//@   at-return requires called(ToOriginApi)
